@@ -5,6 +5,7 @@ import SF.GenEq.Tactic
 set_option linter.unusedSimpArgs false
 set_option linter.unusedSectionVars false
 set_option linter.unusedVariables false
+set_option maxHeartbeats 400000
 /-! Translator tie for `WelfordRolling` (src/rolling/welford_rolling.rs): the view generated from the Rust text = the model's `wrap A welfordRollingCore`,
 for every child view: same answers and same panics on every input.  (Table-driven: tools/mk_geneq.py.) -/
 namespace SF.GenEq.WelfordRolling
@@ -22,7 +23,7 @@ theorem upd_eq (A : View α) (s : State α A.σ) (x : α)  :
     (update A s x).map (abs A) = (wrap A welfordRollingCore).upd (abs A s) x := by
   simp only [update, wrap, mapV, binop, welfordRollingCore, variance, WelfordRollingState.variance, abs]; gen_tie
 theorem upd_cfg (A : View α) (s s' : State α A.σ) (x : α) : update A s x = .ok s' → True := by
-  simp only [update]; gen_tie
+  simp only [update, welfordRollingCore, variance, WelfordRollingState.variance]; gen_tie
 theorem last_eq (A : View α) (s : State α A.σ)  : last A s = (wrap A welfordRollingCore).last (abs A s) := by
   simp only [last, wrap, mapV, binop, welfordRollingCore, variance, WelfordRollingState.variance, abs]; gen_tie
 
@@ -33,14 +34,16 @@ def sim (A : View α)   : Sim (mkView (s0 A ) (update A) (last A)) (wrap A welfo
   init_abs := by rfl
   upd := fun (s : State α A.σ) x hs => by
     skip
-    exact upd_eq A s x 
+    have := upd_eq A s x  
+    exact this
   upd_cfg := fun (s : State α A.σ) x s' hs h => by
     skip
     have := upd_cfg A s s' x h
     simp_all
   last := fun (s : State α A.σ) hs => by
     skip
-    exact last_eq A s 
+    have := last_eq A s  
+    exact this
 
 /-- the Rust text of `WelfordRolling`, as translated, and the model agree on every input: same answers, same panics -/
 theorem tie (A : View α)   (xs : List α) :
